@@ -215,3 +215,39 @@ Qed.
 (** alignment of what is handed out *)
 Lemma region_len_aligned : forall c, 0 < a_al c -> forall x, (align_up (a_al c) x) mod (a_al c) = 0.
 Proof. intros c H x. apply align_up_mod. exact H. Qed.
+
+(** a computable check of the environment obligations, used for the non-vacuity examples *)
+Definition bdisjb (a b : N * N) : bool := (fst a + snd a <=? fst b) || (fst b + snd b <=? fst a).
+Definition aop_okb (fx : bool) (c : acfg) (st : astate) (op : aop) : bool :=
+  match op with
+  | AAlloc amount0 base =>
+      (amount0 <=? BIG) &&
+      match next_request fx c st amount0 with
+      | None => true
+      | Some sz => forallb (bdisjb (base, sz)) (delete_heap st)
+      end
+  | ASetBlock size => (size <? W) && (fx || (size <=? a_sub c) || (a_sub c + a_hdr c <=? size))
+  end.
+Fixpoint avalidb (fx : bool) (c : acfg) (st : astate) (ops : list aop) : bool :=
+  match ops with
+  | [] => true
+  | op :: r => aop_okb fx c st op && avalidb fx c (astep fx c st op) r
+  end.
+
+Lemma aop_okb_sound : forall fx c st op, aop_okb fx c st op = true -> aop_ok fx c st op.
+Proof.
+  intros fx c st op H. destruct op as [amount0 base|size]; cbn [aop_okb aop_ok] in *.
+  - apply andb_true_iff in H. destruct H as [H1 H2]. split; [apply N.leb_le; exact H1|].
+    intros sz E blk I. rewrite E in H2. rewrite forallb_forall in H2. specialize (H2 blk I).
+    unfold bdisjb in H2. unfold bdisj. apply orb_true_iff in H2. destruct H2 as [H2|H2]; apply N.leb_le in H2; auto.
+  - apply andb_true_iff in H. destruct H as [H1 H2]. split; [apply N.ltb_lt; exact H1|].
+    apply orb_true_iff in H2. destruct H2 as [H2|H2].
+    + apply orb_true_iff in H2. destruct H2 as [H2|H2]; [left; exact H2|right; left; apply N.leb_le; exact H2].
+    + right. right. apply N.leb_le. exact H2.
+Qed.
+
+Lemma avalidb_sound : forall fx c ops st, avalidb fx c st ops = true -> avalid fx c st ops.
+Proof.
+  intros fx c ops. induction ops as [|op r IH]; intros st H; cbn [avalidb avalid] in *; [exact I|].
+  apply andb_true_iff in H. destruct H as [H1 H2]. split; [apply aop_okb_sound; exact H1|apply IH; exact H2].
+Qed.
